@@ -1,7 +1,7 @@
 (* C18 -- Keyspace region planning is exact on every input.
    Property theorems only; every proof is `exact <lemma>`.  Model: Model/Trie.v (the go-libdht
    trie as it behaves) and Model/Keyspace.v (transcriptions of provider/internal/keyspace);
-   lemmas: Proofs/Keyspace{Base,Proofs,Alloc,Covered,Trie,Subtract,Coalesce,Next,Gaps,Regions,Assign}.v.
+   lemmas: Proofs/Keyspace{Base,Proofs,Alloc,Covered,Trie,Subtract,Coalesce,Next,Gaps,Regions,Assign,Remove}.v.
 
    Every theorem is for ALL tries that are well formed ([wf]: every leaf lies on the path spelled
    by its key and every inner node holds a key; theorems 13 and the [wf] conclusions of 4, 7, 8,
@@ -16,7 +16,7 @@
 From Verif.Lib Require Import GoSem Bits.
 From Verif.Model Require Import Trie Keyspace.
 From Verif.Proofs Require Import KeyspaceBase KeyspaceProofs KeyspaceAlloc KeyspaceCovered KeyspaceTrie
-  KeyspaceSubtract KeyspaceCoalesce KeyspaceNext KeyspaceGaps KeyspaceRegions KeyspaceAssign.
+  KeyspaceSubtract KeyspaceCoalesce KeyspaceNext KeyspaceGaps KeyspaceRegions KeyspaceAssign KeyspaceRemove.
 From Coq Require Import Permutation Sorted.
 
 (* 1. AllocateToKClosest.  [alloc_ok r items dests pairs]: there is, for every item, a list of
@@ -236,7 +236,8 @@ Print Assumptions c18_shortest_covered_prefix_short_target_refuted.
 
 (* 14. The go-libdht trie: AddMany / Add of keys that are pairwise non-comparable with each other
    and with the keys present ([compat]) never panic, keep the trie well formed and add exactly the
-   new entries. *)
+   new entries; Remove of a key that is present or comparable with no key present never panics,
+   keeps the trie well formed and removes exactly that entry. *)
 Theorem c18_add_many_wf :
   forall (D : Type) (t : trie D) (es : list (bits * D)),
     wf t -> NoDup (map fst es) -> compat (map fst es ++ keys_of t) ->
@@ -250,6 +251,13 @@ Theorem c18_add_wf :
     exists t', add_one t k d = Ok t' /\ wf t' /\ added [(k, d)] t t'.
 Proof. exact @add_one_spec. Qed.
 Print Assumptions c18_add_wf.
+
+Theorem c18_remove_wf :
+  forall (D : Type) (k : bits) (t : trie D), wf t -> locatable k t ->
+    exists t' b, remove t k = Ok (t', b) /\ wf t' /\
+                 entries t' = filter (other_key k) (entries t) /\ (b = true <-> In k (keys_of t)).
+Proof. exact @remove_wf. Qed.
+Print Assumptions c18_remove_wf.
 
 (* Non-vacuity: well-formed tries (one with an empty branch above a split, as Remove / Prune
    leave them) meeting the hypotheses above, with non-trivial results. *)
